@@ -98,7 +98,9 @@ theorem C19_authn (s : State) (fs : List Fault) (req : Req) (u prof e relay : St
   | putUser name profile pw =>
     simp only [step] at h
     split at h
-    · split at h <;> simp [st] at h
+    · split at h
+      · simp [st] at h
+      · split at h <;> simp [st] at h
     · split at h
       · simp [st] at h
       · split at h <;> simp [st] at h
@@ -200,7 +202,7 @@ theorem getSession_inv (s : State) (fs : List Fault) (cred : Cred) (cookie : Opt
           · intro x hx
             simp only [List.mem_cons] at hx
             rcases hx with rfl | hx
-            · exact ⟨hpw, hu, rfl⟩
+            · exact ⟨hpw.2, hu, rfl⟩
             · exact h.log x hx
           · intro sid σ hget
             simp only at hget
@@ -286,8 +288,10 @@ theorem step_sessions_inv (s : State) (fs : List Fault) (req : Req) (h : Session
     simp only [step]
     split
     · split
-      · exact ⟨h.log, h.origin⟩
       · exact h
+      · split
+        · exact ⟨h.log, h.origin⟩
+        · exact h
     · split
       · exact h
       · split
@@ -356,7 +360,7 @@ theorem C19_snapshot (s : State) (hinv : SessionsFromLogins s) (fs : List Fault)
       usr.profile = prof ∧ σ.user = u ∧ ¬ s.now > σ.expire := by
   obtain ⟨id, σ, c, hvia, hu, hp⟩ := C19_authn s fs req u prof e relay h
   cases hvia with
-  | password u' p' usr hcred _ _ _ _ _ _ => rw [hnocred] at hcred; simp at hcred
+  | password u' p' usr hcred _ _ _ _ _ _ _ => rw [hnocred] at hcred; simp at hcred
   | cookie hcookie hstored hfresh hc =>
     obtain ⟨usr, p, hm⟩ := hinv.origin id σ hstored
     have := hinv.log _ hm
@@ -614,7 +618,9 @@ theorem step_reg_inv (s : State) (fs : List Fault) (req : Req) (h : RegInv s) (h
   | putUser name profile pw =>
     simp only [step]
     split
-    · split <;> exact regInv_of_same s _ h rfl rfl
+    · split
+      · exact h
+      · split <;> exact regInv_of_same s _ h rfl rfl
     · split
       · exact h
       · split <;> exact regInv_of_same s _ h rfl rfl
@@ -711,6 +717,29 @@ theorem C19_no_hash_in_user_reply (s : State) (fs : List Fault) (name : String) 
   split
   · rename_i u _; exact Or.inr ⟨u.profile, rfl⟩
   · exact Or.inl rfl
+
+/-! ### the password domain (fix 791b1c9) -/
+
+/-- a password bcrypt cannot tell apart from others (longer than 72 bytes, or containing NUL) is refused
+    at PUT: nothing is stored -/
+theorem C19_unusable_password_refused (s : State) (fs : List Fault) (name profile p : String)
+    (h : validPw p = false) : step s fs (.putUser name profile (some p)) = (s, st 400) := by
+  simp [step, h]
+
+/-- … and never creates a session from form credentials, whatever is stored -/
+theorem C19_unusable_password_no_session (s : State) (fs : List Fault) (u p : String) (cookie : Option String)
+    (allow : Bool) (h : validPw p = false) (s' : State) (fs' : List Fault) (id : String) (σ : SessionRec) (c : Option String)
+    (hg : getSession s fs (.form u p) cookie allow = (s', fs', .session id σ c)) : c = none := by
+  have hv := getSession_session s fs (.form u p) cookie allow s' fs' id σ c hg
+  cases hv with
+  | password u' p' usr hcred hallow hu huser hvalid hpw hσ hc =>
+    cases hcred
+    rw [h] at hvalid
+    exact absurd hvalid (by simp)
+  | cookie hcookie hstored hfresh hc => exact hc
+
+example : validPw "pw-d\x00pw-d" = false ∧ validPw (String.ofList (List.replicate 73 'k')) = false ∧
+    validPw (String.ofList (List.replicate 72 'k')) = true ∧ validPw "pw-d" = true ∧ validPw "" = true := by decide
 
 /-! Non-vacuity: a concrete history with an overwrite under a new entity ID, a restart in the middle,
     a wrong password, a deleted user with a live session, an expired session. -/
